@@ -298,21 +298,24 @@ Proof.
 Qed.
 
 Lemma powerOf16_loop1_spec fuel : forall n,
-  0 <= n < 16 ^ Z.of_nat fuel ->
-  (exists m, powerOf16_loop1 fuel n = Some (inr m) /\ 0 <= m <= 15 /\ (is_pow16 n <-> m = 1)) \/
-  (powerOf16_loop1 fuel n = Some (inl false) /\ ~ is_pow16 n).
+  0 <= n < 16 * 16 ^ Z.of_nat fuel ->
+  (exists m, powerOf16_loop1 (S fuel) n = Some (inr m) /\ 0 <= m <= 15 /\ (is_pow16 n <-> m = 1)) \/
+  (powerOf16_loop1 (S fuel) n = Some (inl false) /\ ~ is_pow16 n).
 Proof.
   induction fuel as [|fuel IH]; intros n Hn.
-  - change (16 ^ Z.of_nat 0) with 1 in Hn. lia.
-  - cbn [powerOf16_loop1]. destruct (n >? 15) eqn:E.
+  - change (16 ^ Z.of_nat 0) with 1 in Hn. cbn [powerOf16_loop1].
+    destruct (n >? 15) eqn:E; [lia|].
+    left. exists n. split; [reflexivity|]. split; [lia|]. apply is_pow16_small. lia.
+  - remember (S fuel) as f eqn:Hf. cbn [powerOf16_loop1]. destruct (n >? 15) eqn:E.
     + assert (H15 : 15 < n) by lia.
       change 15 with (2 ^ 4 - 1). rewrite land_ones_mod by lia. change (2 ^ 4) with 16.
       rewrite shiftr_div by lia. change (2 ^ 4) with 16.
       destruct (negb (n mod 16 =? 0)) eqn:E2.
       * right. split; [reflexivity|]. rewrite is_pow16_step by lia. lia.
       * assert (Hm : n mod 16 = 0) by lia.
-        assert (Hr : 0 <= n / 16 < 16 ^ Z.of_nat fuel).
-        { rewrite Nat2Z.inj_succ, Z.pow_succ_r in Hn by lia. lia. }
+        assert (Hr : 0 <= n / 16 < 16 * 16 ^ Z.of_nat fuel).
+        { subst f. rewrite Nat2Z.inj_succ, Z.pow_succ_r in Hn by lia. lia. }
+        subst f.
         destruct (IH (n / 16) Hr) as [[m [He [Hm15 Hiff]]]|[He Hnot]].
         -- left. exists m. split; [exact He|]. split; [exact Hm15|].
            rewrite is_pow16_step by lia. tauto.
@@ -325,10 +328,10 @@ Lemma powerOf16_spec fuel n :
   (17 <= fuel)%nat -> 0 <= n <= max_u64 ->
   exists b, powerOf16 fuel n = Some b /\ (b = true <-> is_pow16 n).
 Proof.
-  intros Hf Hn.
-  assert (Hlt : 0 <= n < 16 ^ Z.of_nat fuel).
-  { split; [lia|]. assert (16 ^ 17 <= 16 ^ Z.of_nat fuel) by (apply Z.pow_le_mono_r; lia).
-    change (16 ^ 17) with 295147905179352825856 in *. lia. }
+  intros Hf Hn. destruct fuel as [|fuel]; [lia|].
+  assert (Hlt : 0 <= n < 16 * 16 ^ Z.of_nat fuel).
+  { split; [lia|]. assert (16 ^ 16 <= 16 ^ Z.of_nat fuel) by (apply Z.pow_le_mono_r; lia).
+    change (16 ^ 16) with 18446744073709551616 in *. lia. }
   unfold powerOf16.
   destruct (powerOf16_loop1_spec fuel n Hlt) as [[m [He [Hm Hiff]]]|[He Hnot]]; rewrite He.
   - exists (m =? 1). split; [reflexivity|]. rewrite Hiff. lia.
@@ -396,17 +399,21 @@ Proof. repeat split; vm_compute; reflexivity. Qed.
 
 Lemma rlpCount_loop1_spec fuel : forall b cnt,
   0 <= b < 256 ^ Z.of_nat fuel -> 0 <= cnt -> cnt + Z.of_nat fuel <= max_i64 ->
-  exists b' cnt', rlpCountBytesForSize_loop1 fuel b cnt = Some (b', cnt') /\
+  exists b' cnt', rlpCountBytesForSize_loop1 (S fuel) b cnt = Some (b', cnt') /\
     cnt <= cnt' <= cnt + Z.of_nat fuel /\ b < 256 ^ (cnt' - cnt) /\
     (cnt < cnt' -> 256 ^ (cnt' - cnt - 1) <= b).
 Proof.
   induction fuel as [|fuel IH]; intros b cnt Hb Hc Hf.
-  - change (256 ^ Z.of_nat 0) with 1 in Hb. lia.
-  - cbn [rlpCountBytesForSize_loop1]. destruct (b >? 0) eqn:E.
+  - change (256 ^ Z.of_nat 0) with 1 in Hb. cbn [rlpCountBytesForSize_loop1].
+    destruct (b >? 0) eqn:E; [lia|].
+    exists b, cnt. split; [reflexivity|]. split; [lia|].
+    replace (cnt - cnt) with 0 by lia. cbn. lia.
+  - remember (S fuel) as f eqn:Hfe. cbn [rlpCountBytesForSize_loop1]. destruct (b >? 0) eqn:E.
     + rewrite shiftr_div by lia. change (2 ^ 8) with 256.
       rewrite wrap_int_small by lia.
       assert (Hr : 0 <= b / 256 < 256 ^ Z.of_nat fuel).
-      { rewrite Nat2Z.inj_succ, Z.pow_succ_r in Hb by lia. lia. }
+      { subst f. rewrite Nat2Z.inj_succ, Z.pow_succ_r in Hb by lia. lia. }
+      subst f.
       destruct (IH (b / 256) (cnt + 1) Hr ltac:(lia) ltac:(lia)) as [b' [cnt' [He [Hc' [Hlt Hge]]]]].
       exists b', cnt'. split; [exact He|]. split; [lia|].
       replace (cnt' - cnt) with (Z.succ (cnt' - (cnt + 1))) by lia.
@@ -423,15 +430,16 @@ Qed.
 
 (* the number of bytes of the big-endian representation of b (1 for b = 0) *)
 Lemma rlpCountBytesForSize_spec fuel b :
-  (8 <= fuel)%nat -> (fuel <= 1000)%nat -> 0 <= b <= max_i64 ->
+  (8 <= fuel <= 1000)%nat -> 0 <= b <= max_i64 ->
   exists c, rlpCountBytesForSize fuel b = Some c /\
     1 <= c <= 8 /\ b < 256 ^ c /\ (1 < c -> 256 ^ (c - 1) <= b).
 Proof.
-  intros Hf Hf2 Hb. unfold rlpCountBytesForSize. cbv zeta.
+  intros Hf Hb. destruct fuel as [|fuel]; [lia|].
+  unfold rlpCountBytesForSize. cbv zeta.
   rewrite shiftr_div by lia. change (2 ^ 8) with 256.
   assert (Hr : 0 <= b / 256 < 256 ^ Z.of_nat fuel).
-  { split; [lia|]. assert (256 ^ 8 <= 256 ^ Z.of_nat fuel) by (apply Z.pow_le_mono_r; lia).
-    change (256 ^ 8) with 18446744073709551616 in *. lia. }
+  { split; [lia|]. assert (256 ^ 7 <= 256 ^ Z.of_nat fuel) by (apply Z.pow_le_mono_r; lia).
+    change (256 ^ 7) with 72057594037927936 in *. lia. }
   destruct (rlpCount_loop1_spec fuel (b / 256) 1 Hr ltac:(lia) ltac:(lia)) as [b' [c [He [Hc [Hlt Hge]]]]].
   rewrite He. exists c. split; [reflexivity|].
   assert (Hpow : b < 256 ^ c).
